@@ -382,6 +382,8 @@ class Stats:
         self.solver_s = 0.0
         self.unknown = 0
         self.by_kind = {}
+        self.defined_checked = 0       # divisions / radicands whose definedness was posed to the solver
+        self.defined_discharged = 0    # ... and proved impossible to be zero / negative on that path
 
 
 class Engine:
@@ -619,6 +621,9 @@ class Engine:
                     r, m = "sat", self.model
                 else:
                     r, m = self.check([z], kind="definedness")
+                self.stats.defined_checked += 1
+                if r == "unsat":
+                    self.stats.defined_discharged += 1
                 if r == "sat":
                     self._finding("zero-divisor", "divisor can be zero: %s" % _short(eb), m)
                     if not known:
@@ -660,6 +665,9 @@ class Engine:
                     r, m = "sat", self.model
                 else:
                     r, m = self.check([neg], kind="definedness")
+                self.stats.defined_checked += 1
+                if r == "unsat":
+                    self.stats.defined_discharged += 1
                 if r == "sat":
                     self._finding("negative-radicand", "radicand can be negative: %s" % _short(ex), m)
                     if not known:
